@@ -450,13 +450,13 @@ fn kyg_doc(new_layout: bool, comma: bool, nw: usize) -> String {
     let mut s = String::from("###;Datos para Factor de Pérdidas\n");
     for i in 0..nw {
         if new_layout {
-            s += &format!("Ventana;V{i};{};{};S ;{};{};-1.00;1.00;{};Hueco tipo {i}\n", dec("2.50"), dec("3.25"), dec("12.50"), dec("0.75"), dec("27.00"));
+            s += &format!("Ventana;V{i};{};{};S ;{};{};-1.00;1.00;{};Doble Claro 4,6 tipo {i}\n", dec("2.50"), dec("3.25"), dec("12.50"), dec("0.75"), dec("27.00"));
         } else {
             s += &format!("Ventana;V{i};{};{};O ;{}\n", dec("2.50"), dec("3.25"), dec("12.50"));
         }
     }
     if new_layout {
-        s += &format!("Muro;M0;{};{};{};Fachada;S ;Fachada tipo\n", dec("28.00"), dec("1.75"), dec("1.00"));
+        s += &format!("Muro;M0;{};{};{};Fachada;S ;Fachada por defecto C, D\n", dec("28.00"), dec("1.75"), dec("1.00"));
     } else {
         s += &format!("Muro;M0;{};{};{}\n", dec("28.00"), dec("1.75"), dec("1.00"));
     }
@@ -483,13 +483,13 @@ fn check_kyg(ctx: &Ctx, new_layout: bool, comma: bool, nw: usize) {
                 match k.windows.get(&format!("V{i}")) {
                     Some(w) => {
                         ok &= w.a == 2.5 && w.u == 3.25 && w.ff == 0.125 && w.fshobst == 0.5 && w.azimuth_n == 180.0 && w.orientation == if new_layout { "S" } else { "W" };
-                        ok &= if new_layout { w.ggln == Some(0.75) && w.infcoeff_100 == Some(27.0) && w.cons.as_deref() == Some(&format!("Hueco tipo {i}")) } else { w.ggln.is_none() && w.cons.is_none() };
+                        ok &= if new_layout { w.ggln == Some(0.75) && w.infcoeff_100 == Some(27.0) && w.cons.as_deref() == Some(&format!("Doble Claro 4,6 tipo {i}")) } else { w.ggln.is_none() && w.cons.is_none() };
                     }
                     None => ok = false,
                 }
             }
             match k.walls.get("M0") {
-                Some(w) => ok &= w.a == 28.0 && w.u == 1.75 && w.btrx == 1.0 && if new_layout { w.wtype.as_deref() == Some("Fachada") && w.cons.as_deref() == Some("Fachada tipo") } else { w.wtype.is_none() },
+                Some(w) => ok &= w.a == 28.0 && w.u == 1.75 && w.btrx == 1.0 && if new_layout { w.wtype.as_deref() == Some("Fachada") && w.cons.as_deref() == Some("Fachada por defecto C, D") } else { w.wtype.is_none() },
                 None => ok = false,
             }
             match k.thermal_bridges.get("UNION_CUBIERTA") {
@@ -809,7 +809,7 @@ pub fn run(ctx: &Ctx) -> i32 {
     ctx.outcome_merge(&outcomes);
     ctx.finish(
         "model_checking",
-        &format!("project documents (every supported block type; 3 abstract variants: all attributes / mandatory only / legacy LIDER) printed in the full product of layout switches {{LF,CRLF}} x attribute order{{file,reversed,rotated}} x number format{{shortest, %.6f, right-aligned, exponent with explicit sign}} x words{{bare,quoted}} x lists{{one line, broken after commas, closing paren alone}} x comments/blank lines{{none, between, inside}} x indentation{{none, tab, 12 spaces + trailing blanks}} x preamble{{none, LIDER}} = 1728 layouts: build_blocks recovers name, type, parent and every attribute value (numbers exactly, lists through extract_*vec), Data::new's typed elements carry the written values / documented defaults; parent tracking on all sequences of length 2..{} over 11 block kinds (each also with one shared name for all its blocks and a distinguishing attribute value per occurrence) and all prefixes of all cyclic rotations of the document; {} real files re-printed by an independent lexer in {} uniform layouts must parse to Debug-identical Data, and every attribute of a real file whose written value is a numeric literal must be recovered as that number; KyG (old/new columns x ./, x 0..2 windows) and tbl (0..3 elements x 0..3 spaces x quoting) printers", depth, files.len(), nlay),
+        &format!("project documents (every supported block type; 3 abstract variants: all attributes / mandatory only / legacy LIDER) printed in the full product of layout switches {{LF,CRLF}} x attribute order{{file,reversed,rotated}} x number format{{shortest, %.6f, right-aligned, exponent with explicit sign}} x words{{bare,quoted}} x lists{{one line, broken after commas, closing paren alone}} x comments/blank lines{{none, between, inside}} x indentation{{none, tab, 12 spaces + trailing blanks}} x preamble{{none, LIDER}} = 1728 layouts: build_blocks recovers name, type, parent and every attribute value (numbers exactly, lists through extract_*vec), Data::new's typed elements carry the written values / documented defaults; parent tracking on all sequences of length 2..{} over 11 block kinds (each also with one shared name for all its blocks and a distinguishing attribute value per occurrence) and all prefixes of all cyclic rotations of the document; {} real files re-printed by an independent lexer in {} uniform layouts must parse to Debug-identical Data, and every attribute of a real file whose written value is a numeric literal must be recovered as that number; KyG (old/new columns x ./, x 0..2 windows; construction names with commas next to decimal commas) and tbl (0..3 elements x 0..3 spaces x quoting) printers", depth, files.len(), nlay),
         true,
         json!({}),
     )
